@@ -266,3 +266,125 @@ Proof.
   intros H0 H1 H. destruct (cone_obj_eq _ _ _ _ _ H) as (_ & Hh & Hr & Hhr).
   apply (cone_enc_r _ _ _ _ _ H). apply cone_r_nonneg; assumption.
 Qed.
+
+(* ------------------------------------------------------------ the cone is in the class lbinf:
+   at every point the value dominates rho - (max inset radius + round) and |z| - height/2 *)
+Section ConeSlab.
+  Variables sr0 sr1 sh round ux uy l : R.
+  Hypothesis U1 : ux * ux + uy * uy = 1.
+  Hypothesis Uy : 0 < uy.
+  Hypothesis Hr : 0 <= round.
+  Hypothesis Hsh : 0 <= sh.
+  Hypothesis Hl : 0 <= l.
+  Hypothesis E1 : sr1 - sr0 = l * ux.
+  Hypothesis E2 : 2 * sh = l * uy.
+
+  Lemma cone_inside_slab rho z : (rho - sr0) * uy + (z - - sh) * - ux < 0 -> Rabs z < sh ->
+    rho - Rmax sr0 sr1 <= (rho - sr0) * uy + (z - - sh) * - ux.
+  Proof.
+    intros Hd Hz. pose proof (cone_inside sr0 sr1 sh ux uy l Hl E1 E2 rho z Hd Hz) as HM.
+    apply Rabs_lt_inv in Hz. assert (Uy1 : uy <= 1) by nra.
+    set (w := z + sh). assert (Hw : 0 < w < l * uy) by (unfold w; lra).
+    destruct (Rle_dec 0 ux) as [X|X].
+    - assert (EM : Rmax sr0 sr1 = sr1) by (apply Rmax_right; nra). rewrite EM in *.
+      assert (0 <= (1 - uy) * (sr1 - rho)) by (apply Rmult_le_pos; lra).
+      assert (w * ux <= l * uy * ux) by (apply Rmult_le_compat_r; lra).
+      assert (0 <= l * ux) by (apply Rmult_le_pos; lra).
+      assert (0 <= l * ux * (1 - uy)) by (apply Rmult_le_pos; lra).
+      assert (l * uy * ux <= l * ux) by lra.
+      replace (z - - sh) with w by (unfold w; ring). nra.
+    - assert (EM : Rmax sr0 sr1 = sr0) by (apply Rmax_left; nra). rewrite EM in *.
+      assert (0 <= (1 - uy) * (sr0 - rho)) by (apply Rmult_le_pos; lra).
+      assert (0 <= w * - ux) by (apply Rmult_le_pos; lra).
+      replace (z - - sh) with w by (unfold w; ring). nra.
+  Qed.
+
+  Lemma cone_slope_slab rho z :
+    let d := (rho - sr0) * uy + (z - - sh) * - ux in
+    let t := (rho - sr0) * ux + (z - - sh) * uy in
+    0 <= t <= l -> ~ (d < 0 /\ Rabs z < sh) -> ~ (sh <= z /\ rho <= sr1) -> ~ (z <= - sh /\ rho <= sr0) ->
+    rho - Rmax sr0 sr1 <= d /\ Rabs z - sh <= d.
+  Proof.
+    intros d t Ht N3 N1 N2. assert (Uy1 : uy <= 1) by nra. assert (Ux1 : -1 <= ux <= 1) by (split; nra).
+    pose proof (Rmax_l sr0 sr1). pose proof (Rmax_r sr0 sr1).
+    assert (Er : rho - sr0 = t * ux + d * uy)
+      by (unfold t, d; transitivity ((rho - sr0) * (ux * ux + uy * uy)); [rewrite U1; ring | ring]).
+    assert (Ez : z + sh = t * uy - d * ux)
+      by (unfold t, d; transitivity ((z + sh) * (ux * ux + uy * uy)); [rewrite U1; ring | ring]).
+    clearbody d t.
+    assert (T0 : 0 <= t * uy) by (apply Rmult_le_pos; lra).
+    assert (T1 : t * uy <= l * uy) by (apply Rmult_le_compat_r; lra).
+    assert (D0 : 0 <= d).
+    { destruct (Rle_dec 0 d) as [|Dn]; [assumption | exfalso]. assert (d < 0) by lra. assert (d * uy < 0) by nra.
+      assert (Hz : sh <= Rabs z) by (destruct (Rlt_dec (Rabs z) sh); [exfalso; apply N3; split; assumption | lra]).
+      destruct (Rle_dec 0 z) as [Z0|Z0].
+      - rewrite Rabs_pos_eq in Hz by exact Z0. destruct (Rle_dec 0 ux).
+        + apply N1. split; [exact Hz|]. assert ((t - l) * ux <= 0) by nra. lra.
+        + assert (0 < d * ux) by nra. lra.
+      - rewrite Rabs_left in Hz by lra. destruct (Rle_dec ux 0).
+        + apply N2. split; [lra|]. assert (t * ux <= 0) by nra. lra.
+        + assert (d * ux < 0) by nra. lra. }
+    assert (Tu : t * ux <= Rmax sr0 sr1 - sr0).
+    { destruct (Rle_dec 0 ux); [assert (t * ux <= l * ux) by (apply Rmult_le_compat_r; lra); lra|].
+      assert (t * ux <= 0) by nra. lra. }
+    assert (Du : d * uy <= d) by nra. assert (Dx : - d <= d * ux <= d) by (split; nra).
+    split; [lra|]. unfold Rabs. destruct (Rcase_abs z); lra.
+  Qed.
+
+  Lemma cone_slab rho z :
+    let F := cone_field sr0 sr1 sh round (mkV2 ux uy) (mkV2 uy (- ux)) l (mkV2 rho z) in
+    rho - (Rmax sr0 sr1 + round) <= F /\ Rabs z - (sh + round) <= F.
+  Proof.
+    pose proof (Rmax_l sr0 sr1). pose proof (Rmax_r sr0 sr1).
+    pose proof (Rabs_ge_l z) as Zl. pose proof (Rabs_ge_r z) as Zr.
+    cbv zeta. unfold cone_field. cbn [vx vy].
+    destruct (Rleb sh z && Rleb rho sr1) eqn:B1.
+    { apply andb_true_iff in B1. destruct B1. bfalse. rewrite (Rabs_pos_eq z) by lra. split; lra. }
+    destruct (Rleb z (- sh) && Rleb rho sr0) eqn:B2.
+    { apply andb_true_iff in B2. destruct B2. bfalse. rewrite (Rabs_left1 z) by lra. split; lra. }
+    cbv zeta. unfold v2dot, v2sub, v2len, v2len2, v2dot. cbn [vx vy]. ropen.
+    set (d := (rho - sr0) * uy + (z - - sh) * - ux). set (t := (rho - sr0) * ux + (z - - sh) * uy).
+    assert (N1 : ~ (sh <= z /\ rho <= sr1)).
+    { intros [A B]. apply Rleb_true in A. apply Rleb_true in B. rewrite A, B in B1. discriminate. }
+    assert (N2 : ~ (z <= - sh /\ rho <= sr0)).
+    { intros [A B]. apply Rleb_true in A. apply Rleb_true in B. rewrite A, B in B2. discriminate. }
+    destruct (Rltb d 0 && Rltb (Rabs z) sh) eqn:B3.
+    { apply andb_true_iff in B3. destruct B3 as [A B]. bfalse.
+      pose proof (cone_inside_slab rho z A B) as S. fold d in S.
+      pose proof (Rmin_l (- d) (sh - Rabs z)). pose proof (Rmin_r (- d) (sh - Rabs z)). split; lra. }
+    assert (N3 : ~ (d < 0 /\ Rabs z < sh)).
+    { intros [A B]. apply Rltb_true in A. apply Rltb_true in B. rewrite A, B in B3. discriminate. }
+    destruct (Rleb 0 t && Rleb t l) eqn:B4.
+    { apply andb_true_iff in B4. destruct B4 as [A B]. bfalse.
+      destruct (cone_slope_slab rho z (conj A B) N3 N1 N2) as [S1 S2]. fold d in S1, S2. split; lra. }
+    destruct (Rltb t 0) eqn:B5.
+    - pose proof (le_sqrt2_l (rho - sr0) (z - - sh)). pose proof (le_sqrt2_r (rho - sr0) (z - - sh)).
+      pose proof (le_sqrt2_r (rho - sr0) (- (z - - sh))) as Q.
+      replace ((rho - sr0) * (rho - sr0) + - (z - - sh) * - (z - - sh)) with ((rho - sr0) * (rho - sr0) + (z - - sh) * (z - - sh)) in Q by ring.
+      split; [lra|]. unfold Rabs; destruct (Rcase_abs z); lra.
+    - pose proof (le_sqrt2_l (rho - sr1) (z - sh)). pose proof (le_sqrt2_r (rho - sr1) (z - sh)).
+      pose proof (le_sqrt2_r (rho - sr1) (- (z - sh))) as Q.
+      replace ((rho - sr1) * (rho - sr1) + - (z - sh) * - (z - sh)) with ((rho - sr1) * (rho - sr1) + (z - sh) * (z - sh)) in Q by ring.
+      split; [lra|]. unfold Rabs; destruct (Rcase_abs z); lra.
+  Qed.
+End ConeSlab.
+
+Check cone_slab.
+Theorem cone_lbinf h r0 r1 round o : 0 <= r0 -> 0 <= r1 -> @k_cone ROps h r0 r1 round = Some o -> lbinf_3 o.
+Proof.
+  intros H0 H1 H. destruct (cone_obj_eq _ _ _ _ _ H) as (-> & Hh & Hr & Hhr).
+  pose proof (cone_r_nonneg h r0 r1 round Hh Hr Hhr H0 H1) as Hcr.
+  destruct (cone_facts h r0 r1 round Hh Hhr) as (U1 & Uy & Hsh & Hl & E1 & E2). cbv zeta in *.
+  apply slab_all_lbinf3; cbn [bb3 ev3 cone_obj].
+  - unfold ordered3; cbn [b3min b3max wx wy wz]. rewrite two_eq. lra.
+  - intros p. destruct (cone_slab _ _ _ _ _ _ _ U1 Uy Hr Hsh Hl E1 E2 (@v2len ROps (mkV2 (wx p) (wy p))) (wz p)) as [Sr Sz].
+    cbv zeta in Sr, Sz.
+    assert (Er : Rmax (cone_sr0 h r0 r1 round) (cone_sr1 h r0 r1 round) + round = cone_r h r0 r1 round).
+    { unfold cone_r. unfold Rmax; repeat destruct (Rle_dec _ _); lra. }
+    rewrite Er in Sr. unfold cone_sh in Sz. rewrite two_eq in Sz.
+    pose proof (abs_le_len2_x (mkV2 (wx p) (wy p))) as X. pose proof (abs_le_len2_y (mkV2 (wx p) (wy p))) as Y.
+    cbn [vx vy] in X, Y. change (@v2len ROps (mkV2 (wx p) (wy p))) with (len2 (mkV2 (wx p) (wy p))) in Sr.
+    pose proof (Rabs_ge_l (wx p)). pose proof (Rabs_ge_r (wx p)). pose proof (Rabs_ge_l (wy p)). pose proof (Rabs_ge_r (wy p)).
+    pose proof (Rabs_ge_l (wz p)). pose proof (Rabs_ge_r (wz p)).
+    unfold slab3; cbn [b3min b3max wx wy wz]. rewrite two_eq. repeat split; lra.
+Qed.
